@@ -138,7 +138,7 @@ fn bytes_case() -> impl Strategy<Value = BytesCase> {
 pub fn property() -> Property {
     Property {
         id: "C05",
-        rule: "bounded-exhaustive: all programs of length <= 2 (thorough: <= 3) over {61 non-Push ops} u {Push b : 16 boundary words} from 6 initial stacks; generated: op soup, structured programs (jumps, repeats, compute) and arbitrary byte strings, from random reachable machine states (stack/memory incl. at the limits, active repeat stacks, pc), random predicate data, map-backed and scripted state answers (ragged, oversize, errors), random gas tables (0..u64::MAX) and limits; every case in the overflow-checked and the release build. Checked: no panic/abort (supervised child process), typed error or Ok, bounds after every op (stack<=4096, memory<=10240, repeat<=4096, compute depth<=1), agreement with RefVm after every op and of exec_ops/exec_bytecode with the step-wise run. Non-trivial = executes >= 3 ops and touches a boundary (boundary immediate, failing op, taken jump, or a size within 2 of its limit).",
+        rule: "bounded-exhaustive: all programs of length <= 2 (thorough: <= 3) over {61 non-Push ops} u {Push b : 16 boundary words} from 6 initial stacks; generated: op soup, Compute blocks forked from full / nearly full parent stacks and memories with children whose total memory straddles the limit, structured programs (jumps, repeats, compute) and arbitrary byte strings, from random reachable machine states (stack/memory incl. at the limits, active repeat stacks, pc), random predicate data, map-backed and scripted state answers (ragged, oversize, errors), random gas tables (0..u64::MAX) and limits; every case in the overflow-checked and the release build. Checked: no panic/abort (supervised child process), typed error or Ok, bounds after every op (stack<=4096, memory<=10240, repeat<=4096, compute depth<=1), agreement with RefVm after every op and of exec_ops/exec_bytecode with the step-wise run. Non-trivial = executes >= 3 ops and touches a boundary (boundary immediate, failing op, taken jump, or a size within 2 of its limit).",
         assumptions: vec![
             "Compute breadth above the tier's cap (256 quick / 4096 thorough) is excluded by construction (known finding F-C05b) and counted as skipped",
             "programs are pre-screened by RefVm under a step budget; over-budget cases are skipped and counted",
@@ -156,6 +156,9 @@ pub fn property() -> Property {
                         3 => cases::exec_case(programs::structured(programs::StructCfg::default()), false).boxed(),
                         1 => cases::exec_case(programs::structured(programs::StructCfg::default()), true).boxed(),
                         1 => crate::props::c09::jump_case().boxed(),
+                        // Compute from full / nearly full parents: children's memory around the limit at the join
+                        1 => crate::props::c10::children_case().boxed(),
+                        1 => crate::props::c10::error_case().boxed(),
                     ]
                 },
                 oracle,
